@@ -24,7 +24,7 @@ TraceInit == StoreInit(FALSE, FALSE) /\ l = 1 /\ bad = <<>>
 TReset ==
   /\ IsEvent("Reset")
   /\ synced' = Ev.synced /\ extAllow' = Ev.ext /\ log' = <<>> /\ committed' = 0 /\ allowed' = 0
-  /\ cflushed' = 0 /\ cdurable' = 0 /\ hist' = <<>> /\ acked' = {} /\ cont' = <<>> /\ seen' = <<>> /\ everPre' = {} /\ open' = TRUE
+  /\ cflushed' = 0 /\ cdurable' = 0 /\ hist' = <<>> /\ acked' = {} /\ cont' = <<>> /\ seen' = <<>> /\ everPre' = {} /\ cut' = 0 /\ open' = TRUE
 
 \* a precommit whose embedded BlRoot is not the reference root over the earlier accumulated hashes breaks the
 \* chain invariant of C02; it is collected (not a dead end) so that the rest of the execution is still examined
@@ -51,7 +51,10 @@ TRecovered   == /\ IsEvent("Recovered") /\ UNCHANGED vars
                 /\ LET v == RecoveredVerdict(Ev) IN
                    bad' = IF VerdictOk(v) THEN bad ELSE Append(bad, [k |-> Ev.k, mode |-> Ev.mode, line |-> l, verdict |-> v])
 
-TraceNext == TRecovered \/ \/ TReset \/ TPrecommit \/ TVLogsSynced \/ TTxLogSynced \/ TCLogFlushed \/ TCLogSynced
+TTruncated   == IsEvent("Truncated") /\ Truncated(Ev.n)
+TAdopt       == IsEvent("Adopt") /\ Adopt(Ev.alhs, Ev.reloaded)
+
+TraceNext == TRecovered \/ TTruncated \/ TAdopt \/ \/ TReset \/ TPrecommit \/ TVLogsSynced \/ TTxLogSynced \/ TCLogFlushed \/ TCLogSynced
              \/ TCommitted \/ TDiscard \/ TAllow \/ TAck \/ TObserved \/ TClose \/ TOpened \/ TState
 TraceSpec == TraceInit /\ [][TraceNext]_tvars
 
